@@ -263,6 +263,7 @@ func main() {
 	}
 	close(start)
 	wg.Wait()
+	zeroBudget(charRecipes, wlRecipes)
 	if failures > 0 {
 		fmt.Printf("FAIL %d of %d concurrent results violate their recipe; first: %v\n", failures, calls, firstFailure.Load())
 		os.Exit(1)
@@ -383,4 +384,45 @@ func refusals(refused []*spg.CharRecipe, wr *spg.WLRecipe) {
 			fail("the error of refusal %d changed its text from %q to %q", i, texts[i], e.Error())
 		}
 	}
+}
+
+// zeroBudget: the exported budget variables are the caller's. With MaxTrials set to 0 (before any
+// goroutine of this phase starts) nothing can be attempted: every character recipe is refused,
+// constructed separators come out empty — and the library only ever READS the variable, from as
+// many goroutines as there are.
+func zeroBudget(charRecipes []*spg.CharRecipe, wlRecipes []*spg.WLRecipe) {
+	old := spg.MaxTrials
+	spg.MaxTrials = 0
+	var wg sync.WaitGroup
+	start := make(chan struct{})
+	for w := 0; w < 8; w++ {
+		wg.Add(1)
+		go func() {
+			defer wg.Done()
+			defer func() {
+				if r := recover(); r != nil {
+					fail("panic in zero-budget worker: %v", r)
+				}
+			}()
+			<-start
+			for k := 0; k < 3; k++ {
+				for i, r := range charRecipes {
+					if p, err := r.Generate(); err == nil || p != nil {
+						fail("MaxTrials = 0: char recipe %d returned a password", i)
+					}
+				}
+				for i, r := range wlRecipes {
+					if p, err := r.Generate(); err != nil || len(p.Tokens().Atoms()) != r.Length {
+						fail("MaxTrials = 0: wl recipe %d: %v", i, err)
+					}
+				}
+			}
+		}()
+	}
+	close(start)
+	wg.Wait()
+	if spg.MaxTrials != 0 {
+		fail("the library changed the caller's MaxTrials from 0 to %d", spg.MaxTrials)
+	}
+	spg.MaxTrials = old
 }
